@@ -244,7 +244,7 @@ func c03FillOracle(in *c03In) {
 		}
 	}
 	for _, b := range set {
-		if len(b) > 1<<17 {
+		if len(b) > 1<<18 {
 			continue
 		}
 		o.Gzip = append(o.Gzip, [2][]byte{b, c03Gzip(b)})
@@ -601,7 +601,12 @@ func c03GenBoundary(r *vfRand, j int) (in c03In) {
 		n = round * (1 + (j/42)%3)
 	case 1:
 		b := c03Bases()
-		n = b[r.Intn(len(b))]*r.PickInt(1, 1, 2, 3) + r.PickInt(-1, 0, 0, 1)
+		base := b[r.Intn(len(b))]
+		k := r.PickInt(1, 1, 2, 3)
+		if base*k > 4*round {
+			k = 1
+		}
+		n = base*k + r.PickInt(-1, 0, 0, 1)
 	default:
 		n = 2 * round * (1 + (j/42)%2)
 	}
